@@ -112,19 +112,6 @@ pub fn draw_foreign(rng: &mut Rng, big: bool) -> ForeignSpec {
         let gap = if dense { rng.below(3) } else { rng.log_range(1, 1 << 24) - 1 };
         id += u64::from(run) + gap;
     }
-    // a content above 1 MiB is referenced by at most two single-tile entries (re-writing an
-    // archive under a one-byte read policy stays within the per-call operation budget)
-    let mut big_refs = 0;
-    for e in entries.iter_mut() {
-        if contents[e.c as usize % contents.len()].len > (1 << 20) {
-            big_refs += 1;
-            if big_refs > 2 {
-                e.c = 0;
-            } else {
-                e.run = 1;
-            }
-        }
-    }
     let layout = draw_layout(rng, big);
     let mut stored = [0i32; 6];
     for (i, s) in stored.iter_mut().enumerate() {
@@ -156,6 +143,43 @@ pub fn draw_foreign(rng: &mut Rng, big: bool) -> ForeignSpec {
                 let ci = rng.below(n) as usize;
                 if e.run <= 12 || contents[ci].len <= 64 {
                     e.c = ci as u32;
+                }
+            }
+        }
+    }
+    // large contents are referenced sparingly: at most two single-tile entries per content above
+    // 64 KiB, so that re-writing the archive under a one-byte read policy stays far below the
+    // per-call operation budget (a workload bound of the generator, not of the crate)
+    {
+        let small = contents.iter().position(|c| c.len <= 4096).unwrap_or(0);
+        let mut refs: std::collections::HashMap<u32, u32> = std::collections::HashMap::new();
+        let nc = contents.len();
+        for e in entries.iter_mut() {
+            let ci = e.c as usize % nc;
+            if contents[ci].len > (64 << 10) {
+                let r = refs.entry(ci as u32).or_insert(0);
+                *r += 1;
+                if *r > 2 && contents[small].len <= 4096 {
+                    e.c = small as u32;
+                } else {
+                    e.run = 1;
+                }
+            }
+        }
+        let big_total: u64 = contents.iter().filter(|c| c.len > (64 << 10)).map(|c| u64::from(c.len)).sum();
+        if big_total > 6_000_000 {
+            // several multi-megabyte variants (duplicates, prefix families): keep only the first
+            let mut seen = false;
+            for (i, c) in contents.clone().iter().enumerate() {
+                if c.len > (64 << 10) {
+                    if seen {
+                        for e in entries.iter_mut() {
+                            if e.c as usize % nc == i {
+                                e.c = small as u32;
+                            }
+                        }
+                    }
+                    seen = true;
                 }
             }
         }
